@@ -105,6 +105,7 @@ class Driver:
         self.case = case
         self.dtype = case["dtype"]
         self.eps = float(np.finfo(NPDT[self.dtype]).eps)
+        self.floor = 4.0 * float(np.finfo(NPDT[self.dtype]).tiny)  # gradual underflow of products
         self.calls = []  # shapes seen by the custom reduction
         self.stats = dict.fromkeys(
             ["applied", "applied_nonempty", "multi", "both", "bounded", "noop", "noop_after_clear",
@@ -280,7 +281,7 @@ class Driver:
                 continue
             check(got is not None, kind, lambda: f"{what}: '{name}' {side}: expected a reduction, got None")
             g = self._np(got)
-            tol = 16 * self.eps * reduce_parts("sum", [np.abs(x) for x in parts]) + 1e-300
+            tol = 16 * self.eps * reduce_parts("sum", [np.abs(x) for x in parts]) + self.floor
             check(g.shape == want.shape and bool(np.all(np.abs(g - want) <= tol)), kind,
                   lambda: f"{what}: '{name}' {side}: reduced {g.tolist()} want {want.tolist()} ({m.reduction})")
             self.cached[(name, side)] = True
@@ -297,9 +298,10 @@ class Driver:
         for n in names:
             old = self._np(self.last[n])
             m = self.models[n]
-            pre[n] = dict(old=old, enc=m.enclosure(old, self.eps), npos=len(m.pos), nneg=len(m.neg),
+            pre[n] = dict(old=old, enc=m.enclosure(old, self.eps, floor=self.floor), npos=len(m.pos), nneg=len(m.neg),
                           red=m.reduced(), sides=m.sides(), reduction=m.reduction,
-                          shapes={tuple(x.shape) for x in m.pos + m.neg}, ncalls=len(self.calls))
+                          shapes={tuple(x.shape) for x in m.pos + m.neg}, ncalls=len(self.calls),
+                          evaluates=(bool(m.pos) and not self.cached[(n, "p")]) or (bool(m.neg) and not self.cached[(n, "n")]))
         with impl(what):
             if how == "update":
                 self.module.update() if clear is None else self.module.update(clear=clear)
@@ -342,7 +344,7 @@ class Driver:
               lambda: f"{what}: '{n}' old={old.tolist()} got={got.tolist()} want={enc['nominal'].tolist()} "
                       f"(reduction={pre['reduction']}, pos={[x.tolist() for x in self.models[n].pos]}, "
                       f"neg={[x.tolist() for x in self.models[n].neg]}, bind={self.models[n].bind})", info)
-        if pre["reduction"] == "custom":
+        if pre["reduction"] == "custom" and pre["evaluates"]:
             check(len(self.calls) > pre["ncalls"], "custom:notcalled",
                   lambda: f"{what}: '{n}' configured with the custom reduction but it was not called")
             self.stats["custom_used"] += 1
@@ -554,7 +556,7 @@ def run_perm(case):
         if da.dead or db.dead:
             break
         pre_old = {n: da._np(da.last[n]) for n in da.names}
-        pre_enc = {n: da.models[n].enclosure(pre_old[n], da.eps) for n in da.names}
+        pre_enc = {n: da.models[n].enclosure(pre_old[n], da.eps, floor=da.floor) for n in da.names}
         applied = interpret(da, oa, i)
         interpret(db, ob, i)
         if applied:
@@ -562,7 +564,7 @@ def run_perm(case):
                 a, b = da._np(da._raw(n)), db._np(db._raw(n))
                 enc = pre_enc[n]
                 mag = np.abs(pre_old[n]) if enc is None else enc["mag"]
-                tol = 16 * da.eps * mag + 1e-300
+                tol = 16 * da.eps * mag + da.floor
                 with np.errstate(all="ignore"):
                     same = (np.abs(a - b) <= tol) | (np.isnan(a) & np.isnan(b)) | (a == b)
                 check(bool(same.all()), "perm:differs",
@@ -744,12 +746,14 @@ _optpart = st.one_of(st.none(), _part_s, _part_s, _part_s)
 _clearflag = st.sampled_from([None, None, True, False])
 
 
-def _op():
+def _ops(pidx=None):
+    """Strategies for the single operations; ``pidx`` pins the parameter index."""
     lim = st.sampled_from(LIMITS)
     pw = st.sampled_from(POWERS)
     rg = st.sampled_from(RANGES)
     kind = st.one_of(st.none(), _raw, _raw, _raw, _raw)
-    contrib = st.tuples(st.just("contrib"), _raw, st.sampled_from(["tuple", "tuple", "tensor", "acc"]),
+    pi = _raw if pidx is None else st.one_of(st.just(pidx), st.just(pidx), st.just(pidx), _raw)
+    contrib = st.tuples(st.just("contrib"), pi, st.sampled_from(["tuple", "tuple", "tensor", "acc"]),
                         _optpart, _optpart)
 
     @st.composite
@@ -758,21 +762,45 @@ def _op():
         lo, hi = sorted(draw(st.lists(lim, min_size=2, max_size=2, unique=True)))
         scaled = k is not None and HALF_KINDS[k % len(HALF_KINDS)].startswith("scaled")
         which = 0 if scaled else draw(st.sampled_from([0, 0, 0, 1, 2]))
-        return ("full", draw(_raw), k, None if which == 1 else hi, None if which == 2 else lo, draw(pw), draw(pw))
+        return ("full", draw(pi), k, None if which == 1 else hi, None if which == 2 else lo, draw(pw), draw(pw))
 
-    return st.one_of(
-        contrib, contrib, contrib, contrib,
+    config = st.one_of(
+        st.tuples(st.just("reduction"), pi, st.sampled_from(REDS)),
+        st.tuples(st.just("upper"), pi, kind, lim, pw, rg),
+        st.tuples(st.just("lower"), pi, kind, lim, pw, rg),
+        st.tuples(st.just("upper"), pi, kind, lim, pw, rg),
+        st.tuples(st.just("lower"), pi, kind, lim, pw, rg),
+        full(),
+        full(),
+    )
+    apply_ = st.one_of(
         st.tuples(st.just("update"), _clearflag),
         st.tuples(st.just("update"), _clearflag),
         st.tuples(st.just("updatesome"), _raw, _clearflag, st.booleans()),
         st.tuples(st.just("call"), _raw),
-        st.tuples(st.just("clear"), st.sampled_from(["module", "updater", "del", "acc"]), _raw),
-        st.tuples(st.just("reduction"), _raw, st.sampled_from(REDS)),
-        st.tuples(st.just("upper"), _raw, kind, lim, pw, rg),
-        st.tuples(st.just("lower"), _raw, kind, lim, pw, rg),
-        full(),
-        st.tuples(st.just("peek"), _raw),
-    ).map(list)
+    )
+    other = st.one_of(
+        st.tuples(st.just("clear"), st.sampled_from(["module", "updater", "del", "acc"]), pi),
+        st.tuples(st.just("peek"), pi),
+        st.tuples(st.just("peek"), pi),
+    )
+    return contrib, config, apply_, other
+
+
+@st.composite
+def _round(draw):
+    """configure (0-2 ops) -> contribute (1-5 parts, mostly to one parameter) -> apply -> (0-2 other ops)."""
+    focus = draw(_raw)
+    contrib, config, apply_, other = _ops(focus)
+    ops = [draw(config) for _ in range(draw(st.sampled_from([0, 1, 1, 2, 2, 3])))]
+    for _ in range(draw(st.integers(1, 5))):
+        ops.append(draw(contrib))
+        if draw(st.integers(0, 7)) == 0:
+            ops.append(draw(other))
+    ops.append(draw(apply_))
+    for _ in range(draw(st.sampled_from([0, 0, 1, 2]))):
+        ops.append(draw(st.one_of(other, apply_, config)))
+    return [list(o) for o in ops]
 
 
 @st.composite
@@ -784,8 +812,8 @@ def algebra_case(draw, tier="quick", perm=False):
     else:
         shapes = [draw(st.sampled_from([[2, 3], [1, 2], [3, 1], [2, 2]]))]
     init = draw(st.lists(st.lists(st.sampled_from(INITS), min_size=1, max_size=6), min_size=1, max_size=2))
-    maxops = (30 if tier == "quick" else 60)
-    ops = draw(st.lists(_op(), min_size=3, max_size=maxops))
+    rounds = draw(st.lists(_round(), min_size=1, max_size=5 if tier == "quick" else 10))
+    ops = [o for r in rounds for o in r]
     case = {"target": target, "dtype": dtype, "shapes": shapes, "init": init,
             "ctor_reduction": draw(st.sampled_from([None, None, "mean", "amax", "custom", "sum"])),
             "delay": target == "dense" and draw(st.booleans()),
